@@ -75,6 +75,13 @@ class Engine:
         elif kind == "cold":
             for t, k, v in evs:
                 self._push(self.now + t, ("src", sub, k, v))
+        elif kind == "syncthen":
+            # like a BehaviorSubject: the first event inside subscribe(), the rest like a cold source
+            for t, k, v in evs[1:]:
+                self._push(self.now + t, ("src", sub, k, v))
+            for t, k, v in evs[:1]:
+                if sub.live:
+                    self._deliver(sub, k, v)
         else:
             # one timeline per hot source, broadcast to the subscribers present when an event fires
             if sid not in self.hot_armed:
